@@ -8,7 +8,6 @@ package pages
 // index pages and size allocations by the result)
 //@ func (*PageTree) Count results (n, err)
 //@   property C10, C02
-//@   flags nosafety
 //@   ensures nonneg: !err ==> n >= 0
 //@   ensures never_more_than_the_leaves: !err ==> n <= len(t.pages)
 
@@ -44,5 +43,4 @@ package pages
 // returns does not depend on the lookups before it) ----
 //@ func (*PageTree) loadPages results (err)
 //@   property C10, C02
-//@   flags nosafety
 //@   ensures failed_walk_keeps_no_pages: err ==> len(t.pages) == 0
